@@ -68,11 +68,7 @@ def map_failures(res, gen, unitcfg):
     midx = module_index(gen.text)
     for d in res['diags']:
         status, kind = vrun.classify(d['message'])
-        labels = []
-        for s in d['spans']:
-            for t in s['text']:
-                labels += vrun.LABEL_RE.findall(t)
-        labels = [l for l in dict.fromkeys(labels)]
+        labels = list(d.get('labels', []))
         prim = [s for s in d['spans'] if s['is_primary']] or d['spans']
         line = prim[0]['line_start'] if prim else 0
         # the function whose proof failed: for a precondition failure it is the caller (primary span);
